@@ -29,6 +29,8 @@ struct M
   MAKE_MOCK2(f, void(int, int));
 };
 using CM = vf_cm_t<void(int, int), decltype(trompeloeil::eq(0)), decltype(trompeloeil::eq(0))>;
+static unsigned vf_wevals;      // WITH clause evaluations (all expectations)
+static bool wv(bool v) { ++vf_wevals; return v; }
 static const int OCS[4] = {VF_C0, VF_C1, VF_C2, VF_C3};
 static int digit(int i) { return OCS[i]; }
 
@@ -48,18 +50,18 @@ extern "C" void harness(void)
   int a, b; bool c1, c2;
 #define MK(i, LINE) a = A[i]; b = B[i]; c1 = w1[i]; c2 = w2[i];
 #line 200
-  MK(0, 200) e[0] = NAMED_REQUIRE_CALL(m, f(trompeloeil::eq(a), trompeloeil::eq(b))).WITH(c1 /*first0*/).WITH(c2 /*second0*/);
+  MK(0, 200) e[0] = NAMED_REQUIRE_CALL(m, f(trompeloeil::eq(a), trompeloeil::eq(b))).WITH(wv(c1) /*first0*/).WITH(wv(c2) /*second0*/);
 #if VF_NA + VF_NS > 1
 #line 210
-  MK(1, 210) e[1] = NAMED_REQUIRE_CALL(m, f(trompeloeil::eq(a), trompeloeil::eq(b))).WITH(c1 /*first1*/).WITH(c2 /*second1*/);
+  MK(1, 210) e[1] = NAMED_REQUIRE_CALL(m, f(trompeloeil::eq(a), trompeloeil::eq(b))).WITH(wv(c1) /*first1*/).WITH(wv(c2) /*second1*/);
 #endif
 #if VF_NA + VF_NS > 2
 #line 220
-  MK(2, 220) e[2] = NAMED_REQUIRE_CALL(m, f(trompeloeil::eq(a), trompeloeil::eq(b))).WITH(c1 /*first2*/).WITH(c2 /*second2*/);
+  MK(2, 220) e[2] = NAMED_REQUIRE_CALL(m, f(trompeloeil::eq(a), trompeloeil::eq(b))).WITH(wv(c1) /*first2*/).WITH(wv(c2) /*second2*/);
 #endif
 #if VF_NA + VF_NS > 3
 #line 230
-  MK(3, 230) e[3] = NAMED_REQUIRE_CALL(m, f(trompeloeil::eq(a), trompeloeil::eq(b))).WITH(c1 /*first3*/).WITH(c2 /*second3*/);
+  MK(3, 230) e[3] = NAMED_REQUIRE_CALL(m, f(trompeloeil::eq(a), trompeloeil::eq(b))).WITH(wv(c1) /*first3*/).WITH(wv(c2) /*second3*/);
 #endif
 #line 300
   const int NT = VF_NA + VF_NS;
@@ -115,6 +117,16 @@ extern "C" void harness(void)
     for (int i = 0; i < VF_NA; ++i) VCLAIM(4, e[i]->reported, "C04.listed_expectation_marked_reported");
   }
   for (int i = 0; i < NT; ++i) VCLAIM(1, e[i]->sequences->get_calls() == (i >= VF_NA ? 1u : 0u), "C01.no_match_changes_no_count");
+  {
+    // WITH clauses run in declaration order and stop at the first failure, also on the reporting pass:
+    // find() asks every live expectation once; the report asks every saturated one once and, if none of those matches,
+    // every live one a second time.  A clause list [c1, c2] costs 1 evaluation if c1 fails, else 2.
+    auto cost = [&](int i) -> unsigned { return (oc[i] == 0 || oc[i] == 1 || oc[i] == 2) ? 0u : (oc[i] == 3 ? 1u : 2u); };
+    unsigned want = 0;
+    for (int i = 0; i < VF_NA; ++i) want += cost(i) * (any_sat_match ? 1u : 2u);
+    for (int i = VF_NA; i < NT; ++i) want += cost(i);
+    VCLAIM(8, vf_wevals == want, "C08.with_clauses_stop_at_first_failure_also_when_reporting");
+  }
   unsigned before = vf_nreports;
   for (int i = 0; i < NT; ++i) e[i].reset();
   if (!any_sat_match) VCLAIM(4, vf_nreports == before, "C04.no_second_report_after_no_match_listing");
